@@ -81,6 +81,30 @@ def kw_site(rng, i):
     return {"id": i, "op": "eq", "old": old_text, "obs": [obs], "place": "loop", "edits": ["kw"], "sig": "kwcall"}
 
 
+def nested_site(rng, i):
+    """a snapshot() call nested inside the value of another one, each with a pending change of its own
+    (inner: non-canonical text = update, or a wrong value = fix; outer: the code around the inner call is
+    deleted / replaced / kept while a sibling changes): the categories meet in nested source ranges"""
+    a, b = rng.randint(0, 9), rng.randint(10, 19)
+    inner_kind = rng.choice(["update", "update", "fix"])
+    inner_old = f"{b} + 0" if inner_kind == "update" else str(b + 100)
+    inner = f"snapshot({inner_old})"
+    form = rng.choice(["list-delete", "list-replace-all", "dict-delete", "list-keep", "tuple-delete", "call-arg-delete"])
+    if form == "list-delete":
+        old, obs = f"[{a}, {inner}]", f"[{a}]"
+    elif form == "tuple-delete":
+        old, obs = f"({a}, {inner}, {a + 1})", f"({a}, {a + 1})"
+    elif form == "list-replace-all":
+        old, obs = f"[{a}, {inner}]", repr("text %d" % a)
+    elif form == "dict-delete":
+        old, obs = f"{{'k': {a}, 'n': {inner}}}", f"{{'k': {a}}}"
+    elif form == "call-arg-delete":
+        old, obs = f"DC(a={a}, b={inner})", f"DC(a={a})"
+    else:
+        old, obs = f"[{a} + 0, {inner}, {a}]", f"[{a}, {b}, {a}, {a + 1}]"
+    return {"id": i, "op": "eq", "old": old, "obs": [obs], "place": "loop", "edits": ["nested"], "sig": "nested-" + form + "-" + inner_kind}
+
+
 def run_shard(args):
     tier = args.tier
     ncases = {"quick": 12, "thorough": 400}[tier]
@@ -92,6 +116,10 @@ def run_shard(args):
         sites = [mk(rng, i, 3 if mk is c02.make_site else 2) for i in range(rng.randint(3, 6))]
         if rng.random() < 0.4:
             sites = [kw_site(rng, i) if rng.random() < 0.7 else s for i, s in enumerate(sites)]
+        if rng.random() < 0.35:
+            k = rng.randrange(len(sites))
+            sites[k] = nested_site(rng, k)
+            C["programs_with_nested_snapshot"] = C.get("programs_with_nested_snapshot", 0) + 1
         src, order = program.build(sites, style="rec", tests=rng.randint(1, 2))
         C["programs"] += 1
         res0 = inproc.run({"test_a.py": src}, ())
